@@ -164,6 +164,7 @@ Crossbeam<'a, ItemType, BUFFER_SIZE, MAX_STREAMS> {
             let sender = unsafe { self.senders.get_unchecked(*stream_id as usize) };
             match sender.len() {
                 len_before if len_before <= 2 => {
+                    #[cfg(feature = "verif")] crate::verif::note(crate::verif::MULTI_XB_BETWEEN_LEN_AND_SEND, ((*stream_id as u64) << 32) | len_before as u64);
                     #[cfg(feature = "verif")] crate::verif::point(crate::verif::MULTI_XB_BETWEEN_LEN_AND_SEND);
                     let _ = sender.try_send(arc_item.clone());
                     #[cfg(feature = "verif")] crate::verif::point(crate::verif::MULTI_FANOUT_BEFORE_WAKE);
